@@ -67,7 +67,7 @@ def stepLine (line : String) : String :=
     | some m, some sch, some auth, some path, some ver, some body, some hs =>
       let r : RawReq := ⟨m, requestTarget m sch auth path, ver, hs, body⟩
       match assembleRequest r with
-      | some raw => "raw=" ++ showBytes raw ++ ";back=" ++ (if parseRaw raw = some r then "same" else "differs")
+      | some raw => "raw=" ++ showBytes raw ++ ";back=" ++ (if (if isChunked r.fields then parseRawChunked raw else parseRaw raw) = some r then "same" else "differs")
       | none => "error"
     | _, _, _, _, _, _, _ => "bad-op"
   | _ => "bad-op"
